@@ -29,3 +29,300 @@ package parser
 //@ props C15
 //@ requires p != nil && !p.injecting && (typ == 0 || (typ > startSymbolsStart && typ < startSymbolsEnd))
 //@ ensures !old(p.injecting) ==> p.injecting && p.inject == typ
+
+// ---- C05: the lexer --------------------------------------------------------------------------
+//
+// Representation invariant of the cursor, totality of every state function (no index or slice
+// out of range, no nil state called), and coverage: every item starts where the text consumed
+// so far ends, after blanks only, and the cursor's start moves to the item's end.
+
+//@ default nonnil *Lexer
+//@ global log nonnil
+
+//@ struct Lexer
+//@ props C05
+//@ invariant 0 <= self.start && self.start <= self.pos && int(self.pos) <= len(self.input) && 0 <= self.width && self.width <= 4
+
+// the same, for loop invariants (a loop that moves the cursor re-establishes it every iteration)
+//@ spec wfLex(l *Lexer) bool = 0 <= l.start && l.start <= l.pos && int(l.pos) <= len(l.input) && 0 <= l.width && l.width <= 4
+
+// assumed: UTF-8 decoding reads 1..4 bytes of a non-empty string, and a rune below 0x80 is
+// exactly one byte with that value
+//@ extern unicode/utf8.DecodeRuneInString
+//@ pure
+//@ ensures len(s) > 0 ==> 1 <= result1 && result1 <= 4 && result1 <= len(s)
+//@ ensures len(s) > 0 && result0 < 128 ==> result1 == 1 && int(s[0]) == int(result0)
+//@ ensures len(s) > 0 && s[0] < 128 ==> result1 == 1 && int(result0) == int(s[0])
+//@ ensures len(s) == 0 ==> result1 == 0
+//@ extern unicode/utf8.RuneLen
+//@ pure
+//@ extern strings.HasPrefix
+//@ pure
+//@ ensures result ==> len(prefix) <= len(s) && (forall i :: 0 <= i && i < len(prefix) ==> s[i] == prefix[i])
+//@ extern strings.ContainsRune
+//@ pure
+//@ extern strings.ToLower
+//@ pure
+//@ extern fmt.Sprintf
+//@ pure
+
+//@ spec blank(b byte) bool = b == 32 || b == 9 || b == 13
+//@ spec blanks(s string, lo token.Pos, hi token.Pos) bool = forall i :: int(lo) <= i && i < int(hi) ==> blank(s[i])
+
+// what the lexer writes: its cursor fields and the item slot it was given
+//@ frame lexFrame = l.pos, l.start, l.width, l.scannedItem, l.parenDepth, l.braceDepth, l.bracketDepth, l.stringOpen, l.backquoteOpen, alltype(Item)
+
+//@ func (*Lexer).next
+//@ props C05
+//@ modifies l.pos, l.width
+//@ ensures int(old(l.pos)) >= len(l.input) ==> result == -1 && l.pos == old(l.pos) && l.width == 0
+//@ ensures int(old(l.pos)) < len(l.input) ==> result != -1 || true
+//@ ensures int(old(l.pos)) < len(l.input) ==> 1 <= l.width && l.pos == old(l.pos) + l.width
+//@ ensures int(old(l.pos)) < len(l.input) && result < 128 && result >= 0 ==> l.width == 1 && int(l.input[int(old(l.pos))]) == int(result)
+//@ ensures int(old(l.pos)) < len(l.input) && l.input[int(old(l.pos))] < 128 ==> l.width == 1 && int(result) == int(l.input[int(old(l.pos))])
+//@ ensures l.pos - l.width == old(l.pos)
+
+//@ func (*Lexer).backup
+//@ props C05
+//@ requires l.pos - l.width >= l.start
+//@ modifies l.pos
+//@ ensures l.pos == old(l.pos) - l.width
+
+//@ func (*Lexer).peek
+//@ props C05
+//@ modifies l.pos, l.width
+//@ ensures l.pos == old(l.pos)
+//@ ensures int(l.pos) >= len(l.input) ==> result == -1
+//@ ensures int(l.pos) < len(l.input) && result < 128 && result >= 0 ==> int(l.input[int(l.pos)]) == int(result)
+
+// emit: the item is the text between start and pos, and start moves to pos
+//@ func (*Lexer).emit
+//@ props C05
+//@ requires l.itemp != nil
+//@ modifies l.start, l.scannedItem, alltype(Item)
+//@ ensures l.itemp.Typ == t && l.itemp.Pos == old(l.start) && l.itemp.Val == l.input[int(old(l.start)):int(l.pos)] && l.start == l.pos && l.scannedItem
+
+//@ func (*Lexer).errorf
+//@ props C05
+//@ requires l.itemp != nil
+//@ modifies l.scannedItem, alltype(Item)
+//@ ensures result == nil && l.itemp.Typ == ERROR && l.itemp.Pos == l.start && l.scannedItem
+
+//@ func (*Lexer).ignore
+//@ props C05
+//@ modifies l.start
+//@ ensures l.start == l.pos
+
+//@ func (*Lexer).accept
+//@ props C05
+//@ requires l.pos >= l.start
+//@ modifies l.pos, l.width
+//@ ensures l.pos >= old(l.pos)
+//@ func (*Lexer).acceptRun
+//@ props C05
+//@ modifies l.pos, l.width
+//@ ensures l.pos >= old(l.pos)
+//@ loop 1
+//@ invariant wfLex(l) && l.pos >= old(l.pos)
+//@ func (*Lexer).scanNumber
+//@ props C05
+//@ modifies l.pos, l.width
+//@ ensures l.pos >= old(l.pos)
+//@ func (*Lexer).cur
+//@ props C05
+//@ pure
+
+// a state function: never leaves a nil state behind without having produced an item; start
+// only moves forward; what it skipped without producing an item is blank; the item it
+// produced begins after blanks only and start is the item's end
+//@ functype stateFn
+//@ params l
+//@ requires l != nil && l.itemp != nil && !l.scannedItem
+// typestate: what the cursor looks like when a given state function is entered
+//@ requires thisfunc == lexStatements ==> l.start == l.pos
+//@ requires thisfunc == lexLineComment ==> int(l.pos) < len(l.input) && l.input[int(l.pos)] == 35
+//@ requires thisfunc == lexSpaceNotEOL ==> blanks(l.input, l.start, l.pos)
+//@ modifies lexFrame
+// the typestate of the state it hands over to
+//@ ensures result == lexStatements ==> l.start == l.pos
+//@ ensures result == lexLineComment ==> int(l.pos) < len(l.input) && l.input[int(l.pos)] == 35
+//@ ensures result == lexSpaceNotEOL ==> blanks(l.input, l.start, l.pos)
+//@ ensures l.input == old(l.input) && l.itemp == old(l.itemp)
+//@ ensures result == nil ==> l.scannedItem
+//@ ensures l.start >= old(l.start)
+//@ ensures !l.scannedItem ==> blanks(l.input, old(l.start), l.start)
+//@ ensures l.scannedItem && l.itemp.Typ != ERROR ==> l.itemp.Pos >= old(l.start) && blanks(l.input, old(l.start), l.itemp.Pos) && int(l.start) == int(l.itemp.Pos) + len(l.itemp.Val)
+
+//@ func lexStatements
+//@ props C05
+//@ implements parser.stateFn
+//@ exits separate
+//@ func lexKeywordOrIdentifier
+//@ props C05
+//@ implements parser.stateFn
+//@ loop 1
+//@ invariant wfLex(l) && l.start == old(l.start) && !l.scannedItem && l.itemp == old(l.itemp) && l.input == old(l.input)
+//@ func lexSpaceNotEOL
+//@ props C05
+//@ implements parser.stateFn
+//@ loop 1
+//@ invariant wfLex(l) && l.start == old(l.start) && !l.scannedItem && l.itemp == old(l.itemp) && l.input == old(l.input) && blanks(l.input, l.start, l.pos)
+//@ func lexNumberOrDuration
+//@ props C05
+//@ implements parser.stateFn
+//@ func lexRawString
+//@ props C05
+//@ implements parser.stateFn
+//@ loop 1
+//@ invariant wfLex(l) && l.start == old(l.start) && !l.scannedItem && l.itemp == old(l.itemp) && l.input == old(l.input)
+//@ func lexLineComment
+//@ props C05
+//@ implements parser.stateFn
+//@ loop 1
+//@ invariant l.pos - l.width >= l.start
+//@ invariant wfLex(l) && l.start == old(l.start) && !l.scannedItem && l.itemp == old(l.itemp) && l.input == old(l.input)
+//@ func lexEscape
+//@ props C05
+//@ implements parser.stateFn
+//@ loop 1
+//@ invariant l.pos - l.width >= l.start
+//@ invariant wfLex(l) && l.start == old(l.start) && l.itemp == old(l.itemp) && l.input == old(l.input) && !l.scannedItem
+// at most 8 digits of a base <= 16: the accumulated value stays below 2^32
+//@ invariant base <= 16 && n <= 8 && (n >= 8 ==> x < 1) && (n >= 7 ==> x < 16) && (n >= 6 ==> x < 256) && (n >= 5 ==> x < 4096) && (n >= 4 ==> x < 65536) && (n >= 3 ==> x < 1048576) && (n >= 2 ==> x < 16777216) && (n >= 1 ==> x < 268435456)
+//@ func lexMultilineString
+//@ props C05
+//@ implements parser.stateFn
+//@ loop 1
+//@ invariant wfLex(l) && l.start == old(l.start) && l.itemp == old(l.itemp) && l.input == old(l.input)
+// an invalid rune inside the literal records an ERROR item and scanning goes on
+//@ invariant l.scannedItem ==> l.itemp.Typ == ERROR
+//@ func lexString
+//@ props C05
+//@ implements parser.stateFn
+//@ loop 1
+//@ invariant wfLex(l) && l.start == old(l.start) && l.itemp == old(l.itemp) && l.input == old(l.input)
+// an invalid rune inside the literal records an ERROR item and scanning goes on
+//@ invariant l.scannedItem ==> l.itemp.Typ == ERROR
+
+// between two calls of NextItem the cursor is in the shape the pending state function expects
+//@ spec lexTypestate(l *Lexer) bool = (l.state == lexStatements ==> l.start == l.pos) && (l.state == lexLineComment ==> int(l.pos) < len(l.input) && l.input[int(l.pos)] == 35) && (l.state == lexSpaceNotEOL ==> blanks(l.input, l.start, l.pos))
+
+// NextItem: exactly one item per call, contiguous with what was consumed before
+//@ func (*Lexer).NextItem
+//@ props C05
+//@ requires itemp != nil && lexTypestate(l)
+//@ modifies lexFrame, l.itemp, l.lastPos, l.state
+//@ ensures lexTypestate(l)
+//@ ensures l.scannedItem && l.input == old(l.input)
+//@ ensures itemp.Typ != ERROR && old(l.state) != nil ==> itemp.Pos >= old(l.start) && blanks(l.input, old(l.start), itemp.Pos) && int(l.start) == int(itemp.Pos) + len(itemp.Val)
+//@ ensures old(l.state) == nil ==> itemp.Typ == EOF
+//@ loop 1
+//@ invariant wfLex(l) && l.itemp == itemp && l.input == old(l.input) && l.start >= old(l.start)
+//@ invariant lexTypestate(l)
+//@ invariant !l.scannedItem ==> l.state != nil && blanks(l.input, old(l.start), l.start)
+//@ invariant l.scannedItem && itemp.Typ != ERROR ==> itemp.Pos >= old(l.start) && blanks(l.input, old(l.start), itemp.Pos) && int(l.start) == int(itemp.Pos) + len(itemp.Val)
+
+//@ func Lex
+//@ props C05
+//@ modifies nothing
+//@ ensures result != nil && fresh(result) && result.input == input && result.pos == 0 && result.start == 0 && result.state == lexStatements
+
+//@ func isSpaceNotEOL
+//@ props C05 C07
+//@ pure
+//@ ensures result == (r == 32 || r == 9 || r == 13)
+//@ func isEOL
+//@ props C05 C07
+//@ pure
+//@ ensures result == (r == 13 || r == 10)
+//@ func isDigit
+//@ props C05 C07
+//@ pure
+//@ ensures result == (48 <= r && r <= 57)
+//@ func isAlpha
+//@ props C05 C07
+//@ pure
+//@ ensures result == (r == 95 || (97 <= r && r <= 122) || (65 <= r && r <= 90))
+//@ func isAlphaNumeric
+//@ props C05 C07
+//@ pure
+//@ ensures result == (r == 95 || (97 <= r && r <= 122) || (65 <= r && r <= 90) || (48 <= r && r <= 57))
+//@ func digitVal
+//@ props C05 C07
+//@ pure
+//@ ensures 48 <= ch && ch <= 57 ==> result == int(ch) - 48
+//@ ensures 97 <= ch && ch <= 102 ==> result == int(ch) - 97 + 10
+//@ ensures 65 <= ch && ch <= 70 ==> result == int(ch) - 65 + 10
+//@ ensures !(48 <= ch && ch <= 57) && !(97 <= ch && ch <= 102) && !(65 <= ch && ch <= 70) ==> result == 16
+//@ sweep[C05] isUTF8
+
+// ---- C05: the node constructors called by the grammar actions -----------------------------------
+// They are total on every operand the grammar can hand them - including a nil operand left by
+// an earlier constructor that recorded an error - so that parsing ends with a tree or a
+// positioned diagnostic, not with a recovered panic (which carries no position).
+//@ default nonnil *parser
+//@ global AstOp nonnil
+// the operator table lookup behind AstOp reads a package-level map and writes nothing
+//@ functype func(op parser.ItemType) ast.Op
+//@ pure
+
+//@ func (*Item).PositionRange
+//@ props C05
+//@ modifies nothing
+//@ requires i != nil
+//@ ensures result != nil && fresh(result) && result.Start == i.Pos
+
+// operands the grammar always supplies (a token, or a node built by a constructor that never
+// returns nil): the accumulator of a list / map literal, the callee name of a call, the `in`
+// expression of a for-in header (ASSUMED: established by the generated grammar actions)
+//@ func (*parser).newListLiteralAppendExpr
+//@ props C05
+//@ requires initExpr != nil
+//@ func (*parser).newListLiteralEnd
+//@ props C05
+//@ requires initExpr != nil
+//@ func (*parser).newMapLiteralAppendExpr
+//@ props C05
+//@ requires initExpr != nil
+//@ func (*parser).newMapLiteralEnd
+//@ props C05
+//@ requires initExpr != nil
+//@ func (*parser).newCallExpr
+//@ props C05
+//@ requires fn != nil
+//@ func (*parser).newForInStmt
+//@ props C05
+//@ requires inExpr != nil
+// (folding a sign into a literal wraps for the one value that cannot be negated; it cannot occur:
+// a literal is parsed without sign and is therefore never the minimum integer)
+//@ func (*parser).newUnaryExpr
+//@ props C05
+//@ intmode bv64
+
+//@ func (*parser).addParseErrf
+//@ props C05
+//@ requires pr != nil
+//@ modifies p.errs, elems(p.errs)
+//@ ensures len(p.errs) == old(len(p.errs)) + 1
+
+//@ sweep[C05] (*parser).new* (*parser).unquoteString (*parser).unquoteMultilineString (*parser).unexpected conv2PlError
+
+// the token source of the generated driver: comments are dropped, a lexer error is recorded
+// with a position range inside the source and ends the token stream, EOF ends it too
+//@ func (*parser).Lex
+//@ props C05
+//@ requires lval != nil
+//@ requires wfLex(p.lex) && (!p.injecting ==> lexTypestate(p.lex))
+//@ ensures wfLex(p.lex)
+//@ ensures old(p.injecting) ==> result == int(old(p.inject)) && !p.injecting
+//@ ensures !old(p.injecting) ==> lexTypestate(p.lex) && lval.item.Typ != COMMENT
+//@ ensures !old(p.injecting) && lval.item.Typ == ERROR ==> result == 0 && len(p.errs) == old(len(p.errs)) + 1
+//@ ensures !old(p.injecting) && lval.item.Typ != ERROR ==> result == int(lval.item.Typ)
+//@ loop 1
+//@ invariant wfLex(p.lex) && lexTypestate(p.lex) && !p.injecting && len(p.errs) == old(len(p.errs))
+
+//@ func (*parser).addParseErr
+//@ props C05
+//@ requires pr != nil
+//@ modifies p.errs, elems(p.errs)
+//@ ensures len(p.errs) == old(len(p.errs)) + 1
